@@ -49,11 +49,11 @@ def sroot(ev, t, crate="shred"):
             return t, list(reversed(path))
 
 
-def evaluate(prog, body, extra_opaque=()):
+def evaluate(prog, body, extra_opaque=(), inline=()):
     cache = prog.__dict__.setdefault("_semcov", {})
-    k = (body.key, tuple(sorted(extra_opaque)))
+    k = (body.key, tuple(sorted(extra_opaque)), tuple(sorted(inline)))
     if k not in cache:
-        ev = Evaluator(prog.facts, Policy(opaque_names=LIFECYCLE_NAMES | set(extra_opaque)))
+        ev = Evaluator(prog.facts, Policy(opaque_names=(LIFECYCLE_NAMES | set(extra_opaque)) - set(inline)))
         ends = ev.eval(body)
         cache[k] = (ev, ends)
     return cache[k]
@@ -149,11 +149,27 @@ def _traversal(ev, L, fam, fname, depth):
     raise _Bad("per-element coverage inside the loop at %s is %s (expected exactly 1 on every way through an iteration)" % (site, sorted(counts)), site)
 
 
-def coverage(prog, body, src, family, extra_opaque=()):
+def _known_empty(ev, e, src):
+    """The path has established that the source holds no element."""
+    for (ct, cv, cn, cs) in e.path.conds:
+        if Q.is_call(ev, ct, "is_empty") and cv == 1:
+            b, p = sroot(ev, ct[2][0])
+            if src.exact(b, p, ev):
+                return True
+        nc = Q.norm_cmp(ct, cv)
+        if nc is not None and nc[2][0] == "int" and (Q.is_call(ev, nc[1], "len") or nc[1][0] == "len"):
+            inner = nc[1][2][0] if nc[1][0] == "call" else nc[1][1]
+            b, p = sroot(ev, inner)
+            if src.exact(b, p, ev) and [n for n in (0, 1, 2, 3) if Q.holds_for(nc[0], n, nc[2][1])] == [0]:
+                return True
+    return False
+
+
+def coverage(prog, body, src, family, extra_opaque=(), inline=(), vacuous=True):
     fam = family if callable(family) else (lambda c: c.name in family)
     fname = getattr(family, "__name__", None) if callable(family) else "/".join(sorted(family))
     try:
-        ev, ends = evaluate(prog, body, extra_opaque)
+        ev, ends = evaluate(prog, body, extra_opaque, inline)
     except Exception as e:
         return Cov("bad", "%s could not be evaluated (%s: %s)" % (body.qname, type(e).__name__, e), [body.loc()])
     rets = [e for e in ends if e.kind == "return"]
@@ -165,6 +181,8 @@ def coverage(prog, body, src, family, extra_opaque=()):
     try:
         for e in rets:
             n, sh, ss = _count(ev, e.path.events, src, fam, fname)
+            if n == 0 and vacuous and _known_empty(ev, e, src):
+                n = 1   # nothing to cover: the collection is known to be empty on this path
             counts.append(n)
             if n:
                 shape = sh if shape is None or shape == sh else ("mixed", shape, sh)
